@@ -5,6 +5,7 @@ import (
 	"context"
 	"fmt"
 	"io"
+	"strings"
 	"sync"
 	"testing"
 	"testing/synctest"
@@ -15,6 +16,7 @@ import (
 	"pgregory.net/rapid"
 	"verif/harness/evid"
 	"verif/harness/ref"
+	"verif/harness/wsx"
 )
 
 // C07 — connections are isolated: pooled buffers never leak data between connections.
@@ -46,6 +48,10 @@ var c07Modes = []c03Mode{
 	{"client/mode-no-ctx", true, websocket.CompressionNoContextTakeover, "permessage-deflate; client_no_context_takeover; server_no_context_takeover"},
 	{"server/off", false, websocket.CompressionDisabled, ""},
 	{"client/off", true, websocket.CompressionDisabled, ""},
+	// handshakes whose outcome differs from the mode's default: whatever they write down must stay with their own connection
+	{"server/takeover+no-ctx-offer", false, websocket.CompressionContextTakeover, "permessage-deflate; client_no_context_takeover; server_no_context_takeover"},
+	{"server/takeover+client_no_ctx-offer", false, websocket.CompressionContextTakeover, "permessage-deflate; client_no_context_takeover"},
+	{"client/takeover+no-ctx-resp", true, websocket.CompressionContextTakeover, "permessage-deflate; client_no_context_takeover; server_no_context_takeover"},
 }
 
 type c07Kept struct {
@@ -71,6 +77,16 @@ func (s *c07State) openConn(t fataler, mode c03Mode) *c07Conn {
 		t.Fatalf("handshake: %v", err)
 	}
 	lc.C.SetReadLimit(1 << 20)
+	if !mode.Client {
+		// what a server agrees to is a function of its own options and this request only
+		off := mode.Mode != websocket.CompressionDisabled && strings.Contains(mode.Ext, "permessage-deflate")
+		want := wsx.Agreed{Deflate: off,
+			ClientNoCtx: off && (mode.Mode == websocket.CompressionNoContextTakeover || strings.Contains(mode.Ext, "client_no_context_takeover")),
+			ServerNoCtx: off && (mode.Mode == websocket.CompressionNoContextTakeover || strings.Contains(mode.Ext, "server_no_context_takeover"))}
+		if lc.Agreed != want {
+			t.Fatalf("C07: connection %d (%s, offer %q): the handshake agreed %+v, but its own options and request give %+v: it was influenced by the handshakes of other connections", len(s.conns), mode.Name, mode.Ext, lc.Agreed, want)
+		}
+	}
 	c := &c07Conn{id: len(s.conns), lc: lc, mode: mode, alive: true, open: true}
 	c.def = ref.NewDeflater(lc.Agreed.SenderTakeover(!mode.Client))
 	p := lc.Peer
@@ -232,6 +248,9 @@ func TestC07(t *testing.T) {
 					comp := rapid.IntRange(0, 2).Draw(rt, "compress") != 0
 					nf := rapid.IntRange(1, 3).Draw(rt, "frags")
 					payload := tagged(c.id, c.seq, n)
+					if rapid.Bool().Draw(rt, "repeatsPrevious") {
+						payload = taggedRepeat(c.id, c.seq, n)
+					}
 					c.seq++
 					for _, f := range c.frames(payload, comp, nf, false) {
 						c.lc.Peer.send(f)
@@ -573,6 +592,9 @@ func TestC07Parallel(t *testing.T) {
 					var last io.Reader
 					for k, n := range p.sizes {
 						payload := tagged(c.id, k, n)
+						if k%2 == 1 {
+							payload = taggedRepeat(c.id, k, n)
+						}
 						for _, f := range c.frames(payload, k%3 != 2, 1+k%3, false) {
 							c.lc.Peer.send(f)
 						}
